@@ -1,5 +1,5 @@
 CONSTANTS
-  MaxLen = 2
+  MaxLen = 4
   MaxReentry = 2
   Envs = {"ok", "retry503", "close", "aterm", "lterm"}
   Defects = {}
